@@ -141,3 +141,87 @@ HARNESSES = [
     _h("c14m_cost_models", h_cost_models, "every subset of cost models {0,1,2}; redeemers present/absent; plutus script set none/v1/v2/v3"),
     _h("c14m_reduce_shapes", h_reduce_shapes, "4 IR shapes; scalars: whole i128 range"),
 ]
+
+
+# ---- chain-specific directives: every field absent or of any kind -----------------------------
+
+def _kinds(ctx, T):
+    n = ctx.sym_int("n", "i128")
+    return [
+        ("absent", None),
+        ("number", T.num(n)),
+        ("string", T.string("abc")),
+        ("empty bytes", T.bytes([])),
+        ("28 bytes", T.bytes([7] * 28)),
+        ("29 bytes (enterprise address image)", T.bytes([0x60] + [7] * 28)),
+        ("payment address", T.address([0x60] + [7] * 28)),
+        ("base address", T.address([0x00] + [7] * 28 + [8] * 28)),
+        ("reward address", T.address([0xE0] + [7] * 28)),
+        ("script reward address", T.address([0xF0] + [7] * 28)),
+        ("malformed address", T.address([0x60, 1, 2])),
+        ("empty address", T.address([])),
+        ("hash", T.v("Expression", "Hash", VecM([7] * 28))),
+        ("short hash", T.v("Expression", "Hash", VecM([7] * 5))),
+        ("none", T.none()),
+        ("assets", T.assets([T.asset(T.none(), T.none(), T.num(n))])),
+        ("list", T.list([T.num(1)])),
+    ]
+
+
+DIRECTIVES = {
+    "withdrawal": (["credential", "amount", "redeemer"], "compile_tx_body"),
+    "vote_delegation_certificate": (["stake", "drep"], "compile_tx_body"),
+    "treasury_donation": (["coin"], "compile_tx_body"),
+    "cardano_publish": (["to", "amount", "datum", "version", "script"], "compile_tx_body"),
+    "plutus_witness": (["version", "script"], "compile_witness_set"),
+    "native_witness": (["script"], "compile_witness_set"),
+}
+
+
+def h_directive(ctx, tier, seed, name, vary):
+    """one directive of the given name; the fields in `vary` are each absent or of any of 16
+    expression kinds (the other fields well-formed): compile_tx_body / compile_witness_set /
+    compile_redeemers return Ok or Err"""
+    eng = ctx.eng; T = TIR(eng)
+    kinds = _kinds(ctx, T)
+    good = dict(credential=T.address([0xE0] + [7] * 28), amount=T.num(5), redeemer=T.none(), stake=T.address([0xE0] + [7] * 28),
+                drep=T.bytes([9] * 28), coin=T.num(5), to=T.address([0x60] + [7] * 28), datum=None, version=T.num(3), script=T.bytes([1, 2, 3]))
+    if name == "cardano_publish":
+        good["amount"] = T.assets([T.asset(T.none(), T.none(), T.num(5))])
+    entries = []
+    chosen = []
+    for f in DIRECTIVES[name][0]:
+        if f in vary:
+            k = eng.choose(len(kinds), "kind of field %s" % f)
+            chosen.append("%s=%s" % (f, kinds[k][0]))
+            v = kinds[k][1]
+        else:
+            v = good[f]
+        if v is not None:
+            entries.append((f, True, v))
+    d = directive(eng, name, entries)
+    tx = mk_tx(T, adhoc=[d], outputs=[T.st("Output", address=T.address([0x60] + [2] * 28), datum=T.none(), amount=T.assets([T.asset(T.none(), T.none(), T.num(1))]), optional=False)])
+    net = eng.mk_variant("NetworkId", "Testnet", [])
+    what = "%s directive (%s)" % (name, ", ".join(chosen))
+    b = no_panic(ctx, what, lambda: models.deref(eng.call_fn(eng.find(short="compile_tx_body"), [ref_to_value(tx), net])))
+    if b is None:
+        return
+    ctx.require(True, "compile_tx_body returns")
+    if b.variant != "Ok":
+        return
+    no_panic(ctx, what, lambda: eng.call_fn(eng.find(short="compile_witness_set"), [ref_to_value(tx), ref_to_value(b.fields[0]), net]))
+    no_panic(ctx, what, lambda: eng.call_fn(eng.find(short="compile_auxiliary_data"), [ref_to_value(tx)]))
+
+
+def _dh(name, vary):
+    return _h("c14m_directive_%s_%s" % (name, "_".join(vary)), (lambda ctx, tier, seed: h_directive(ctx, tier, seed, name, vary)),
+              "%s directive, fields %s each absent or one of 16 expression kinds (integers: whole i128 range)" % (name, "/".join(vary)), max_paths=60000)
+
+
+HARNESSES += [
+    _dh("withdrawal", ["credential", "amount"]), _dh("withdrawal", ["redeemer"]),
+    _dh("vote_delegation_certificate", ["stake", "drep"]),
+    _dh("treasury_donation", ["coin"]),
+    _dh("cardano_publish", ["to", "amount"]), _dh("cardano_publish", ["datum"]), _dh("cardano_publish", ["version", "script"]),
+    _dh("plutus_witness", ["version", "script"]), _dh("native_witness", ["script"]),
+]
